@@ -606,3 +606,23 @@ func returnedArgumentPaths() []Path {
 		mkPath(st(".*", "(wild)", "wild", true), Step{Text: ".f()", Ast: "(func f)", Kind: "func", Funcs: true}, id))
 	return out
 }
+
+// multiNamePaths: multi-name selectors with three names in every order over the
+// key alphabet {a,b,c} (and with a repeated name), at the root, below a name
+// and below a wildcard: more names than the object has members, names written
+// in non-ascending order.
+func multiNamePaths() []Path {
+	var out []Path
+	a := st(".a", "(name a)", "name", false)
+	w := st("[*]", "(wild)", "wild", true)
+	for _, names := range [][]string{{"c", "a", "b"}, {"b", "a", "c"}, {"c", "b", "a"}, {"a", "c", "b"}, {"b", "c", "a"}, {"b", "a", "b"}, {"c", "c", "a"}, {"c", "a"}, {"c", "b"}} {
+		var ts, as []string
+		for _, n := range names {
+			ts = append(ts, "'"+n+"'")
+			as = append(as, "(n "+n+")")
+		}
+		m := st("["+strings.Join(ts, ",")+"]", "(multi "+strings.Join(as, " ")+")", "multi", true)
+		out = append(out, mkPath(m), mkPath(a, m), mkPath(w, m))
+	}
+	return out
+}
